@@ -61,7 +61,7 @@ package protocol
 // an X5CHAIN key: the subject key is the key of the first (leaf) certificate of the
 // chain, whatever the number of certificates; the chain is kept in wire order (C09, C04)
 //@ func protocol.PublicKey.parseX5Chain
-//@   props C09 C04 C10(sweep)
+//@   props C09 C04 C01 C06 C10(sweep)
 //@   sweep bounds,panic,make,nilmem
 //@   invariant loop#1: forall k in 0..rangeindex+1: certs[k] != nil
 //@   ensures @leaf ? err == nil ==> u(pub.key) == u(certs[0].PublicKey)
